@@ -374,3 +374,99 @@ class InspectSeedIndependence(Unit):
 
         ctx.eng.explore(thunk)
         ctx.bounded.append({"unit": self.name, "bound": "3 definitions x 8 seeds"})
+
+
+# ================================================================================================
+# composer: one arbitrary task with one arbitrary transition (proof over opaque names/conditions)
+# ================================================================================================
+class ComposeGenericTransition(Unit):
+    name = "D.compose_generic_transition"
+    functions = ["orquesta.composers.native.WorkflowComposer._compose_wf_graph"]
+    obligations = {
+        "C14.compose.transition_exact": {"props": ["C14", "C13"], "text":
+            "for an arbitrary task and an arbitrary transition (target, condition, position) of it, with the graph in an arbitrary state: the composer looks the edge up with exactly (task, target, criteria=[condition] or [], ref=position); adds exactly one edge with those attributes iff none exists, otherwise updates that edge; a `retry` target adds no edge and no node but sets the retry policy {when: condition or completed(), count: 3}; a declared join sets the barrier ('*' for all, else the number, 0 included); a retry spec sets {when, count, delay}"},
+    }
+    assumptions = [
+        "the graph wrapper and the spec are abstract (contract stubs); names, conditions and positions are opaque values",
+        "loop summary: one arbitrary worklist item and one arbitrary transition; that the worklist reaches every reachable task (completeness) and terminates is NOT proved here (bounded differential check C14.compose.exact)",
+    ]
+    trusted = ["pyvc interpreter"]
+
+    def splits(self, tier):
+        return [(tgt, join, retry) for tgt in ("task", "retry") for join in (None, "all", 2, 0) for retry in (False, True)]
+
+    def run_split(self, ctx, split):
+        tgt_kind, join, has_retry = split
+        from pyvc.engine import AbstractObj, Stub, Raised
+        from pyvc import sym as S2
+        import z3 as _z3
+
+        def thunk(e):
+            calls = []
+            T = "TASK"
+            target = "retry" if tgt_kind == "retry" else "TARGET"
+            cond_present = e.branch(S2.mk_bool("condition_present").z)
+            condition = "COND" if cond_present else None
+            idx = "IDX"
+            exists = e.register_input("edge_exists", S2.mk_bool("edge_exists"))
+            has_task = e.register_input("target_in_graph", S2.mk_bool("target_in_graph"))
+            in_cycle_t = e.register_input("target_in_cycle", S2.mk_bool("target_in_cycle"))
+            is_split = e.register_input("is_split", S2.mk_bool("is_split"))
+
+            def rec(name):
+                return Stub(name, lambda eng, *a, **k: calls.append((name, a, k)))
+
+            def has_transition(eng, s_, d_, **kw):
+                calls.append(("has_transition", (s_, d_), kw))
+                return [(s_, d_, "KEY7", {})] if eng.branch(exists.z) else []
+
+            graph = AbstractObj("wf_graph", add_task=rec("add_task"), set_barrier=rec("set_barrier"),
+                                update_task=rec("update_task"), add_transition=rec("add_transition"),
+                                update_transition=rec("update_transition"),
+                                has_transition=Stub("has_transition", has_transition),
+                                has_task=Stub("has_task", lambda eng, x: True if x == T else has_task))
+            task_spec = AbstractObj("task_spec", join=join, has_retry=Stub("has_retry", lambda eng: has_retry),
+                                    retry=AbstractObj("retry_spec", when="RW", count="RC", delay="RD"))
+            leaf_spec = AbstractObj("leaf_spec", join=None, has_retry=Stub("has_retry", lambda eng: False))
+
+            def get_next_tasks(eng, name):
+                return [(target, condition, idx)] if name == T else []
+
+            tasks = AbstractObj(
+                "tasks", get_start_tasks=Stub("get_start_tasks", lambda eng: [(T, None, None)]),
+                is_join_task=Stub("is_join_task", lambda eng, x: x == T and join is not None),
+                is_split_task=Stub("is_split_task", lambda eng, x: is_split if x == T else False),
+                in_cycle=Stub("in_cycle", lambda eng, x: in_cycle_t if x == target else False),
+                get_task=Stub("get_task", lambda eng, x: task_spec if x == T else leaf_spec),
+                get_next_tasks=Stub("get_next_tasks", get_next_tasks),
+                __getitem__=Stub("getitem", lambda eng, x: task_spec if x == T else leaf_spec))
+            wf_spec = object.__new__(native_specs.WorkflowSpec)
+            object.__setattr__(wf_spec, "tasks", tasks) if False else wf_spec.__dict__.update({"tasks": tasks})
+            e.overrides[graphing.WorkflowGraph] = lambda eng, *a, **k: graph
+            g = e.call(native_composer.WorkflowComposer._compose_wf_graph, [wf_spec], {})
+            info = {"target": tgt_kind, "join": join, "retry_spec": has_retry, "condition": cond_present}
+            crta = ["COND"] if cond_present else []
+            mine = [c for c in calls if c[0] in ("has_transition", "add_transition", "update_transition") and c[1][0] == T]
+            ok = g is graph
+            if tgt_kind == "retry":
+                ok = ok and not mine and not [c for c in calls if c[0] == "add_task" and c[1][0] == "retry"]
+                ok = ok and ("update_task", (T,), {"retry": {"when": "COND" if cond_present else "<% completed() %>", "count": 3}}) in calls
+                claim = _z3.BoolVal(ok)
+            else:
+                lookups = [c for c in mine if c[0] == "has_transition"]
+                adds = [c for c in mine if c[0] == "add_transition"]
+                upds = [c for c in mine if c[0] == "update_transition"]
+                ok = ok and len(lookups) == 1 and lookups[0][1] == (T, target) and lookups[0][2] == {"criteria": crta, "ref": idx}
+                added = len(adds) == 1 and not upds and adds[0][1] == (T, target) and adds[0][2] == {"criteria": crta, "ref": idx}
+                updated = len(upds) == 1 and not adds and upds[0][1] == (T, target) and upds[0][2] == {"key": "KEY7", "criteria": crta, "ref": idx}
+                claim = _z3.And(_z3.BoolVal(ok), _z3.If(exists.z, _z3.BoolVal(updated), _z3.BoolVal(added)))
+            if join is not None:
+                claim = _z3.And(claim, _z3.BoolVal(("set_barrier", (T,), {"value": "*" if join == "all" else join}) in calls))
+            else:
+                claim = _z3.And(claim, _z3.BoolVal(not [c for c in calls if c[0] == "set_barrier"]))
+            if has_retry:
+                claim = _z3.And(claim, _z3.BoolVal(("update_task", (T,), {"retry": {"when": "RW", "count": "RC", "delay": "RD"}}) in calls))
+            ctx.oblige("C14.compose.transition_exact", claim, None, info)
+            ctx.canary()
+
+        ctx.eng.explore(thunk)
